@@ -272,42 +272,29 @@ func (d *dumper) node(n ast.Node, depth int) {
 		}
 	case *ast.StructLit:
 		if d.opts.simplify {
-			// -s (v2): `[_]: _` / `[string]: _` / `..._` are written `...` and moved to the end
-			keep := x.Elts[:0:0]
-			open := false
-			for _, e := range x.Elts {
-				switch y := e.(type) {
-				case *ast.Ellipsis:
-					if id, ok := y.Type.(*ast.Ident); (y.Type == nil || ok && id.Name == "_") && len(ast.Comments(y)) == 0 {
-						open = true
-						continue
-					}
-				case *ast.Field:
-					if isAnyPattern(y) && len(y.Attrs) == 0 && len(ast.Comments(y)) == 0 {
-						open = true
-						continue
-					}
-				}
-				keep = append(keep, e)
-			}
-			if open {
+			if elts, changed := simplifyOpenElts(x.Elts); changed {
 				cp := *x
-				cp.Elts = keep
+				cp.Elts = elts
 				d.generic(&cp, depth)
-				d.line(depth+1, ".open true")
 				return
 			}
 		}
 	case *ast.File:
 		// an empty `import ()` group carries nothing: the v2 formatter drops it
-		keep := x.Decls[:0:0]
-		for _, dcl := range x.Decls {
+		decls := x.Decls
+		if d.opts.simplify {
+			if el, changed := simplifyOpenElts(decls); changed {
+				decls = el
+			}
+		}
+		keep := decls[:0:0]
+		for _, dcl := range decls {
 			if id, ok := dcl.(*ast.ImportDecl); ok && len(id.Specs) == 0 && len(ast.Comments(id)) == 0 {
 				continue
 			}
 			keep = append(keep, dcl)
 		}
-		if len(keep) != len(x.Decls) {
+		if len(keep) != len(x.Decls) || d.opts.simplify {
 			cp := *x
 			cp.Decls = keep
 			d.generic(&cp, depth)
@@ -381,6 +368,49 @@ func (d *dumper) value(name string, fv reflect.Value, depth int) {
 	default:
 		d.line(depth, ".%s ?%s", name, fv.Type())
 	}
+}
+
+// simplifyOpenElts is the documented -s rewrite of the v2 formatter on a declaration list:
+// `[_]: _`, `[string]: _` (without attributes) and `..._` are written `...`, which is moved to the end
+// of the list; several comment-less `...` are one.  Comments stay on the rewritten element.
+func simplifyOpenElts(elts []ast.Decl) ([]ast.Decl, bool) {
+	var rest, open []ast.Decl
+	changed := false
+	for i, e := range elts {
+		var el *ast.Ellipsis
+		switch y := e.(type) {
+		case *ast.Ellipsis:
+			if id, ok := y.Type.(*ast.Ident); y.Type == nil || ok && id.Name == "_" {
+				el = &ast.Ellipsis{}
+				ast.SetComments(el, ast.Comments(y))
+				if y.Type != nil {
+					changed = true
+				}
+			}
+		case *ast.Field:
+			if isAnyPattern(y) && len(y.Attrs) == 0 {
+				el = &ast.Ellipsis{}
+				ast.SetComments(el, ast.Comments(y))
+				changed = true
+			}
+		}
+		if el == nil {
+			rest = append(rest, e)
+			continue
+		}
+		if i != len(elts)-1 {
+			changed = true
+		}
+		if len(ast.Comments(el)) == 0 && len(open) > 0 && len(ast.Comments(open[len(open)-1])) == 0 {
+			changed = true
+			continue
+		}
+		open = append(open, el)
+	}
+	if !changed {
+		return elts, false
+	}
+	return append(rest, open...), true
 }
 
 // firstDiff returns a short description of the first differing line of two dumps.
